@@ -108,14 +108,22 @@ package messagequeue
 //@   ensures result2 == nil ==> result1.msgSize == b.Builder.blkSize && result1.topic == b.topic && result1.responseStreams == b.responseStreams
 
 //@ -- C15/C17: messages leave in the order they were queued; what leaves takes its bytes with it
+//@ -- token model of the queue's (capacity 1) work signal inside extractOutgoingMessage: a send puts the token there, the
+//@ -- default arm next to the send is taken only when it already is
+//@ ghost workTok map[ref]int
+//@ onsend struct{}(ch, v) in extractOutgoingMessage: workTok := upd(workTok, ch, 1)
+//@ onsend sendfull:struct{}(ch, v) in extractOutgoingMessage: assume workTok[ch] >= 1
 //@ func MessageQueue.extractOutgoingMessage
 //@   lenient
 //@   requires buildersOK(mq)
-//@   modifies mq.builders, alloc
+//@   modifies mq.builders, alloc, workTok
 //@   ensures buildersOK(mq)
 //@   ensures len(old(mq.builders)) == 0 ==> result2 != nil && mq.builders == old(mq.builders)
 //@   ensures len(old(mq.builders)) > 0 ==> mq.builders == old(mq.builders[1:])
 //@   ensures result2 == nil ==> len(old(mq.builders)) > 0 && result1.msgSize == old(mq.builders[0].Builder.blkSize) && result1.topic == old(mq.builders[0].topic)
+//@   -- C16: whatever becomes of the message taken - sent, or dropped because it is empty - the queue goroutine is told
+//@   -- when more messages wait behind it (otherwise they are neither sent nor, at shutdown, reported)
+//@   ensures len(mq.builders) > 0 ==> workTok[mq.outgoingWork] >= 1
 
 //@ -- C15: the callback contract of AllocateAndBuildMessage(size, fn): fn raises the block bytes of the builder it is
 //@ -- given by at most the `size` that was reserved for it (responseassembler's callback is verified against this: it adds
